@@ -187,7 +187,8 @@ fn large_graphs(thorough: bool) -> Vec<(String, SparseMatrix)> {
         h
     };
     let cycle_edges = |l: usize, r0: usize, c0: usize| -> Vec<(usize, usize)> { (0..l).flat_map(|i| [(r0 + i, c0 + i), (r0 + i, c0 + (i + 1) % l)]).collect() };
-    let ls: Vec<usize> = if thorough { vec![33, 63, 64, 65, 100, 129, 257] } else { vec![33, 64, 65, 130] };
+    // lengths / hub degrees just past 16, 32, 64, 128, 256 (thorough: 512, 1024)
+    let ls: Vec<usize> = if thorough { vec![17, 33, 63, 64, 65, 100, 129, 255, 256, 257, 513, 1025] } else { vec![17, 33, 65, 129, 257] };
     for &l in &ls {
         out.push((format!("cycle:{}", l), build(l, l, cycle_edges(l, 0, 0), l)));
         // with a chord: row 0 also joins the column opposite
@@ -210,6 +211,30 @@ fn large_graphs(thorough: bool) -> Vec<(String, SparseMatrix)> {
         e.extend([(0, 1), (l - 1, 1), (l / 2, 2), (l / 2 + 1, 2), (1, 3)]);
         out.push((format!("tall-hub:{}", l), build(l, 4, e, l + 5)));
     }
+    // a hub of degree L whose adjacency list is in ascending order (position = index), and ONE further
+    // node joining two chosen neighbours: exactly one cycle through the hub, between two chosen
+    // positions of its list (positions 255 / 256 / 257 are where an 8-bit position tag would wrap)
+    for &l in if thorough { &[257usize, 300, 513, 65537][..] } else { &[257usize, 300][..] } {
+        for (a, b) in [(0usize, 256usize), (1, 257), (255, 0), (255, 256), (254, 255), (17, 200), (3, 259)] {
+            if a >= l || b >= l {
+                continue;
+            }
+            let mut h = SparseMatrix::new(2, l);
+            for j in 0..l {
+                h.insert(0, j);
+            }
+            h.insert(1, a);
+            h.insert(1, b);
+            out.push((format!("hub-pair:row:{}:{}-{}", l, a, b), h));
+            let mut h = SparseMatrix::new(l, 2);
+            for i in 0..l {
+                h.insert(i, 0);
+            }
+            h.insert(a, 1);
+            h.insert(b, 1);
+            out.push((format!("hub-pair:col:{}:{}-{}", l, a, b), h));
+        }
+    }
     out
 }
 
@@ -228,7 +253,7 @@ fn check_large(name: &str, h: &SparseMatrix, acc: &mut Acc) {
     if let Some(x) = girth {
         bounds.extend([x.saturating_sub(2), x - 1, x, x + 1, x + 2]);
     }
-    bounds.extend([64, 66, 128, 130, 200, 258, 260, 514, 516]);
+    bounds.extend([64, 66, 128, 130, 200, 258, 260, 514, 516, 1026, 2050, 2052]);
     bounds.sort_unstable();
     bounds.dedup();
     check_graph_h(format!("girth:large:{}", name), json!({"kind": "large", "name": name}), &g, h, &bounds, name, acc)
@@ -322,7 +347,7 @@ pub fn run(run: &Run) -> i32 {
         run,
         acc,
         Coverage {
-            rule: "every binary matrix of every listed shape (all masks) x every row and column root x bounds {0..10,12,16,MAX}; families: 2L-cycle with a pendant path of 1..8 edges at every attachment point (L=2..6), theta graphs (two cycles sharing a path), complete bipartite minus a matching up to 12x12; large graphs (2L-cycles for L = 33..130 (257), with a chord, two components, paths, a hub row / hub column of degree L) with every root and bounds around their girth; every 5x5 supergraph of a fixed 6-cycle / 8-cycle through node 0 (all settings of the first 17 (thorough: all) free entries). Reference: BFS distances; local girth = min over incident edges e of 1 + dist in G-e. Non-trivial = graph contains a cycle; forests and graphs with a cycle-free node attached to a cyclic component are counted separately.".into(),
+            rule: "every binary matrix of every listed shape (all masks) x every row and column root x bounds {0..10,12,16,MAX}; families: 2L-cycle with a pendant path of 1..8 edges at every attachment point (L=2..6), theta graphs (two cycles sharing a path), complete bipartite minus a matching up to 12x12; large graphs (2L-cycles for L = 17, 33, 65, 129, 257 (thorough to 1025), with a chord, two components, paths, a hub row / hub column of degree L; hubs of degree 257 and 300 with exactly one cycle through two chosen positions of the hub's list) with every root and bounds around their girth; every 5x5 supergraph of a fixed 6-cycle / 8-cycle through node 0 (all settings of the first 17 (thorough: all) free entries). Reference: BFS distances; local girth = min over incident edges e of 1 + dist in G-e. Non-trivial = graph contains a cycle; forests and graphs with a cycle-free node attached to a cyclic component are counted separately.".into(),
             exhaustive: true,
             extra: serde_json::Map::new(),
             graph: None,
